@@ -147,7 +147,29 @@ func loadSpecLib(dir string) (*SpecLib, error) {
 	return lib, nil
 }
 
+// autoPattern: for a lemma of the form (= L R) whose left side is an application mentioning every bound variable, L is
+// used as the trigger (rewrite-rule reading), which avoids matching loops between lemmas about app.
+func (l *Lemma) autoPattern() *SX {
+	b := l.Body
+	if b.head() != "=" || len(b.List) != 3 || !b.List[1].IsLst {
+		return nil
+	}
+	atoms := map[string]bool{}
+	collectAtoms(b.List[1], atoms)
+	for _, v := range l.Vars.List {
+		if !atoms[v.List[0].Atom] {
+			return nil
+		}
+	}
+	return slist(b.List[1])
+}
+
 func (l *Lemma) assertText() string {
+	if l.Pattern == nil {
+		if ap := l.autoPattern(); ap != nil {
+			return "(assert (forall " + l.Vars.String() + " (! " + l.Body.String() + " :pattern " + ap.String() + ")))"
+		}
+	}
 	if l.Pattern != nil {
 		return "(assert (forall " + l.Vars.String() + " (! " + l.Body.String() + " :pattern " + l.Pattern.String() + ")))"
 	}
